@@ -569,7 +569,7 @@ def configs(tier):
                 for inverse in (False, True):
                     if kind == "cubic" and inverse:
                         continue  # masked multi-branch root selection: see DESIGN (cubic inverse is outside the solver claims)
-                    cfgs.append({"type": "spline", "kind": kind, "K": K, "mode": mode, "box": "sym", "inverse": inverse, "timeout": t})
+                    cfgs.append({"type": "spline", "kind": kind, "K": K, "mode": mode, "box": "sym", "inverse": inverse, "timeout": t if K < 3 else 300, "bughunt": K == 3 and kind != "linear"})
     for prec in ("F32", "F64"):
         for scenario in ("tails", "box", "anybox"):
             for K in ((1, 2) if tier == "quick" else (1, 2, 3, 4)):
